@@ -18,6 +18,14 @@ N = 3
 
 def m_contains(ex, callee, args, ret_ty, frame):
     which = "param" if "CelValue>" in callee.split("::contains_key")[0] and "dyn" not in callee else ("macro" if "Interpreter" in callee else "func")
+    # `params` and `types` are both HashMap<String, CelValue>: tell them apart by the field of the
+    # BindContext the receiver points into (only variables, functions and macros count as bound)
+    recv = args[0]
+    if which == "param" and isinstance(recv, VRef) and recv.path:
+        fields = [fn for fn, _ in ex.P.types.structs["BindContext"]]
+        step = next((st for st in reversed(recv.path) if st[0] == "f"), None)
+        if step is not None and step[2] < len(fields) and fields[step[2]] != "params":
+            which = {"types": "type"}.get(fields[step[2]], fields[step[2]])
     name = vid_of(ex, args[1])
     key = ("bound", which, name)
     if key not in ex.lazy:
@@ -60,6 +68,9 @@ def scen(ex):
             ex.seq_item(names, i)
             nv = vid_of(ex, names.items[i])
             nm = f"zq{i}"
+            tb = ex.lazy.get(("bound", "type", nv))
+            if tb is not None and z3.is_true(model.eval(tb, model_completion=True)):
+                nm = ["null_type", "float", "double"][i]      # the name of a built-in type (neither variable, function nor macro)
             req["names"].append(nm)
             for which, key in (("param", "params"), ("func", "funcs"), ("macro", "macros")):
                 b = ex.lazy.get(("bound", which, nv))
